@@ -21,8 +21,8 @@ TypeOfName(t, n) == IF n \in DOMAIN t.fields THEN t.fields[n] ELSE t.constants[n
 IndexInBounds(t, idx) ==
   \/ t.len < 0
   \/ idx.cls # "HplLiteral"
-  \/ idx.value[1] # "n" \/ idx.value[3] # 1
-  \/ idx.value[2] < t.len
+  \/ (idx.value[1] \notin {"nan", "inf"}                      \* NAN / INF are literal indices inside no fixed array
+        /\ (idx.value[1] # "n" \/ idx.value[3] # 1 \/ idx.value[2] < t.len))
 
 \* the token an accessor chain (or a root) denotes.
 \* bound: function from the quantified variables in scope to the token of the elements they range over;
